@@ -208,7 +208,7 @@ def one_case(rec, rnd, idx):
     try:
         stmts = list(assign(lhs, rhs, fields=fields))
         raised = None
-    except (ValueError, KeyError, TypeError) as ex:
+    except Exception as ex:  # any exception counts as 'raises'; its type is reported
         raised = ex
     rec.count("cases")
     if raised is not None:
